@@ -246,6 +246,9 @@ def conclude(prop, tier, seed, specs, results, metas, crashes, nat, group_wall, 
     pg = [r for r in results if r["kind"] in ("P", "G") and r["name"] not in known_names and r["name"] not in undecided_names]
     bb = [r for r in results if r["kind"] == "B"]
     proved = [r for r in pg if r["status"] == "proved"]
+    for r in pg:
+        if r["status"] != "proved" and r not in confirmed and not any(r is e for e in errors):
+            print("  counted but not discharged: %s status=%s kind=%s [%s]" % (r["name"], r["status"], r["kind"], r["backend"]))
     be_count, be_time = {}, {}
     for r in results:
         be_count[r["backend"]] = be_count.get(r["backend"], 0) + 1
